@@ -431,7 +431,20 @@ func TestConv(t *testing.T) {
 				}
 			}
 		}
+		// genuine IPv6 addresses one bit / byte / group away from an IPv4-mapped one
+		mn := gen.MappedNeighbours()
+		for _, a := range mn {
+			l.addrCase(net.IP(a[:]))
+			l.netAddrCase(net.IP(a[:]), "", 53)
+			l.netAddrCase(net.IP(a[:]), "eth0", 65535)
+		}
+		r.Count("mapped_prefix_neighbours", int64(len(mn)))
 		l.flush("addr_conversions_ok")
+	}
+	for i, a := range gen.MappedNeighbours() {
+		if i%5 == 0 {
+			ips = append(ips, net.IP(a[:]))
+		}
 	}
 	mon.ParallelEach(len(ips), func(w, i int) {
 		l := &local{r: r}
